@@ -519,10 +519,7 @@ def check(scenario, w, st, res, ids):
                   {'at': i, 'got': g, 'want': x, 'n_got': len(got_in),
                    'n_want': len(want_in)}))
         return
-    if kick:
-        # the outgoing side is at the mercy of the closed socket
-        return
-    if ref['ended_by_listener']:
+    if ref['ended_by_listener'] and not kick:
         res.probes['early-listener-disconnected'] = 1
         ob()
         if len(st['exits']) != 1 and not st['errs']:
@@ -575,6 +572,20 @@ def check(scenario, w, st, res, ids):
         got = calls_out.pop(key, [])
         ge = [c['lid'] for c in got if c['early']]
         go = [c['lid'] for c in got if not c['early']]
+        if kick:
+            # the outgoing side is at the mercy of the closed socket; what
+            # remains true: a packet whose frame reached the server whole
+            # HAS been written, so its listeners have run (in the client,
+            # the ordinary ones right after the write)
+            if not (written and len(frame_for(key)) == 1):
+                continue
+            ob()
+            if ge != e or go != o:
+                V.append(('C13/outgoing-listener-calls:write-error-later',
+                          {'packet': key, 'got_early': ge, 'want_early': e,
+                           'got_ordinary': go, 'want_ordinary': o}))
+                return
+            continue
         ob(3)
         if key == ('chat', 'late') and not ge:
             # refused before any listener was asked: just as good
@@ -611,6 +622,8 @@ def check(scenario, w, st, res, ids):
                            for b in got if not b['early']):
                 V.append(('C13/outgoing-stage-order', {'packet': key}))
                 return
+    if kick:
+        return
     ob()
     if calls_out:
         V.append(('C13/outgoing-listener-calls-for-unexpected-packet',
